@@ -1152,7 +1152,7 @@ def is_timed_string(s: str) -> bool:
     return False
 
 
-def timed_timestamp(x) -> bool:
+def timed_timestamp(x, r=None) -> bool:
     """a timestamp (number, or text that is a plain decimal number) that does not fall on a UTC midnight once it is
     scaled below the millisecond watershed and rounded to microseconds — written from the documentation of
     `datetime`: seconds since the epoch, microsecond resolution"""
@@ -1168,7 +1168,16 @@ def timed_timestamp(x) -> bool:
     while abs(q) > 2 * 10 ** 10:
         q /= 1000
     micro = round(q * 10 ** 6)
-    return micro % (86400 * 10 ** 6) != 0
+    if micro % (86400 * 10 ** 6) == 0:
+        return False
+    if r is not None and isinstance(r, dict) and "date" in r:
+        # only when the result is the day of that timestamp (a text like '20200220' is a date in its own right)
+        try:
+            day = date(1970, 1, 1) + timedelta(days=micro // (86400 * 10 ** 6))
+        except OverflowError:
+            return False
+        return [day.year, day.month, day.day] == list(r["date"])
+    return True
 
 
 class C12(Check):
@@ -1318,7 +1327,7 @@ class C12(Check):
             txt = text_of(src)
             if txt is not None and is_timed_string(txt):
                 return f"timed string {txt!r} became a date"
-            if timed_timestamp(src if txt is None else txt):
+            if timed_timestamp(src if txt is None else txt, r):
                 return f"timestamp {json.dumps(src)[:60]} with a time of day became a date (no information may be dropped)"
         return None
 
